@@ -20,7 +20,7 @@ KINDS = ("boxcar", "gaussian", "lorentzian")
 
 
 def REQUIRED(tier):
-    return ["responses_compared", "argmax_checks", "invariance_checks", "boxcar_recoveries", "kind:boxcar", "kind:gaussian", "kind:lorentzian", "len:not_fft_good", "pulse:wraps_around_end", "kernel_direct_unsorted_bank", "long_series", "regime:uncentred_data_with_baseline", "invariance:offset_with_centring_off", "construction_after_refused_one", "regime:baseline_1e5_times_noise", "input_buffer_reused_after_construction"]
+    return ["responses_compared", "argmax_checks", "invariance_checks", "boxcar_recoveries", "kind:boxcar", "kind:gaussian", "kind:lorentzian", "len:not_fft_good", "pulse:wraps_around_end", "kernel_direct_unsorted_bank", "long_series", "regime:uncentred_data_with_baseline", "invariance:offset_with_centring_off", "construction_after_refused_one", "regime:baseline_1e5_times_noise", "input_buffer_reused_after_construction", "bank_with_template_as_wide_as_data", "fullwidth_template_present"]
 
 
 def cases(tier, seed):
@@ -31,6 +31,8 @@ def cases(tier, seed):
         yield {"kind": "boxcar", "seed": int(seed) * 100003 + i}
     for i in range(max(24, n // 10)):
         yield {"kind": "long", "seed": int(seed) * 100003 + i}
+    for i in range(12 if tier == "quick" else 120):
+        yield {"kind": "fullwidth", "seed": int(seed) * 100003 + i}
 
 
 def _good(n):
@@ -96,6 +98,8 @@ def run_case(case, ctx):
         return _boxcar(case, ctx, rng)
     if case["kind"] == "long":
         return _long(case, ctx, rng)
+    if case["kind"] == "fullwidth":
+        return _fullwidth(case, ctx, rng)
     n = int(rng.choice([200, 211, 256, 509, 127, 96, int(rng.integers(24, 513))]))
     kind = str(rng.choice(KINDS))
     nbmax = int(rng.choice([4, 8, 16, 32]))
@@ -300,6 +304,49 @@ def _long(case, ctx, rng):
         return
     if _invariance(ctx, mf, x, offset, opts, one):
         ctx.nontrivial_case(one)
+
+
+def _fullwidth(case, ctx, rng):
+    """Banks whose widest boxcar is as long as the data (a short profile with the default bank, or nbins_max = len(data)): that template
+    is constant over the whole length, i.e. zero after mean removal.  Every response must stay finite and S/N, peak bin and best template
+    must be the maximum over the informative templates."""
+    from sigpyproc.core.filters import MatchedFilter
+
+    n = int(rng.choice([16, 28, 32, 45, 64]))
+    spacing = [1.0, 1.5, 1.0, 2.0][case["seed"] % 4]     # spacing 1 steps through every width up to the data length
+    x = rng.normal(size=n).astype(np.float32)
+    w, pos = int(rng.integers(1, max(2, n // 4))), int(rng.integers(0, n))
+    x[(pos + np.arange(w)) % n] += np.float32(rng.uniform(5, 12))
+    one = dict(case, params={"n": n, "nbins_max": n, "spacing": spacing, "pos": pos, "w": w})
+    ctx.evaluated(); ctx.count("bank_with_template_as_wide_as_data"); ctx.count("kind:boxcar")
+    try:
+        mf = MatchedFilter(x, temp_kind="boxcar", nbins_max=n, spacing_factor=spacing)
+    except ValueError:
+        ctx.count("fullwidth_refused")
+        return
+    except Exception as exc:  # noqa: BLE001
+        ctx.violation(f"raised:boxcar:{type(exc).__name__}@{exc_site(exc)}", fmt_exc(exc), one)
+        return
+    convs = np.asarray(mf.convs, dtype=np.float64)
+    widths = [int(t.width) for t in mf.temp_bank]
+    if n in widths:
+        ctx.count("fullwidth_template_present")
+    if not np.all(np.isfinite(convs)) or not np.isfinite(float(mf.snr)):
+        ctx.violation("non-finite-response:template-as-wide-as-data", f"n={n}: bank widths {widths}: responses contain NaN/inf (S/N {mf.snr!r}) - a template that is constant over the data carries no information, its response is 0", one)
+        return
+    z = np.asarray(mf.zscores.data, dtype=np.float64)
+    bank = [(np.asarray(t.data, dtype=np.float64), int(t.ref_bin)) for t in mf.temp_bank]
+    want = oracle_convs(z, bank, n)
+    ctx.count("responses_compared", int(want.size))
+    if convs.shape != want.shape or np.abs(convs - want).max() > _tol(z):
+        ctx.violation("response-values:boxcar:template-as-wide-as-data", f"n={n}: bank widths {widths}: max |response - inner product| = {np.abs(convs - want).max() if convs.shape == want.shape else 'shape'}", one)
+        return
+    k0, t0 = (int(v) for v in np.unravel_index(np.argmax(convs), convs.shape))
+    ctx.count("argmax_checks")
+    if float(mf.snr) != float(np.asarray(mf.convs).max()) or (mf.peak_bin != t0 and convs[k0, t0] != convs[[i for i, t in enumerate(mf.temp_bank) if t is mf.best_temp][0], mf.peak_bin]):
+        ctx.violation("argmax:boxcar:template-as-wide-as-data", f"snr={mf.snr!r} peak_bin={mf.peak_bin}; max response {convs.max()!r} at template {k0} bin {t0}", one)
+        return
+    ctx.nontrivial_case(one)
 
 
 def _boxcar(case, ctx, rng):
